@@ -13,10 +13,16 @@ reported for an unchanged file; CANT_REREAD leaves the file configuration and th
 sequence, its restriction to named groups, and convergence: after update every active group has the file's options, and
 (histories, real EventListenerPool objects) each active pool is subscribed in supervisor.events to exactly the file's
 event types, no removed pool stays subscribed, and a reread after a converged update reports nothing.
+Daemon with children (props/_c15_daemon.py): the unmodified Supervisor.run()/runforever() over the simulated kernel,
+the real supervisorctl do_update / do_reread / do_stop / do_remove / do_add as the client, every request dispatched
+inside a main-loop pass; monitors over the kernel's child table, the reported pids, fork/kill/wait records and the
+RPC answers (no fork for a removed group, no live child outside the process table, convergence to the file with the
+file's options, unreported groups keep their pids, reread by itself touches nothing).
 """
 import copy, io, os, re
 import config_l1 as L
 from props import c14 as C14
+from props import _c15_daemon as DAEMON
 
 ID = 'C15'
 LEAN_PROPS = 'SupervisorModel.Props.C15'
@@ -31,6 +37,15 @@ TRUSTED = C14.TRUSTED + [
     "correspondence skips the case when the two lists came out in different orders",
     "an fcgi group's socket owner derived from user= (no socket_owner= option; that option is outside the modelled subset) is represented in the model "
     "by the uid: SocketConfig.__eq__ only compares owners, and two derived owners are equal exactly when the uids are",
+]
+TRUSTED = TRUSTED + [
+    "daemon population (props/_c15_daemon.py): harness/simkernel.py stands for the kernel (fork/waitpid/kill/pipes, virtual clock); the configuration "
+    "file is represented by lists of program descriptions, and options.process_config of the daemon's real ServerOptions object is replaced by a "
+    "function that installs the config objects (real ProcessConfig / ProcessGroupConfig) of the current file version, which is what reading the file "
+    "does; supervisorctl runs in a second thread under strict hand-over, its requests are executed by the simulated kernel's RPC dispatcher inside "
+    "the main loop (the HTTP transport is not part of this population)",
+    "Model/UpdateLoop.lean follows one pass of runforever as far as the group table is concerned (list taken before poll, requests, guarded "
+    "transition loop); whether a transition forks is a flag of the group, process state machines are C02/C06's",
 ]
 ASSUMPTIONS = ["group names within one file are unique (the daemon's group table is keyed by name)"]
 RULE = ("(a) histories: one daemon (real ServerOptions/Supervisor/rpcinterface/do_update, no child ever started) taken through 2-4 file versions with "
@@ -47,7 +62,16 @@ RULE = ("(a) histories: one daemon (real ServerOptions/Supervisor/rpcinterface/d
         "priority of a program, listener, fcgi program and [group:x] changed, dropped, written with its default; programs= of a [group:x] gains, loses, "
         "replaces, reorders a member; fcgi socket port / host / host case / path / kind, socket_backlog, socket_mode, socket_owner gained, changed, "
         "dropped -- each as the pair (old, new) AND (new, old), and a sample of them (without fcgi sections) as write/reread/update/reread histories.  "
-        "Distinct by the two parser views; non-trivial when the mutation is not 'unchanged'")
+        "Distinct by the two parser views; non-trivial when the mutation is not 'unchanged'.  (d) a daemon WITH children (unmodified main loop over "
+        "the simulated kernel, real supervisorctl commands as the client): old file / new file(s) = groups removed, added, unchanged or changed (one "
+        "option of a member, a member added / dropped, the group priority), groups of equal (999 for everybody) and of different priorities, 1-3 "
+        "processes per group that are daemons, batch jobs kept in a loop by autorestart (exit 1-3 passes after every start: EXITED with a restart "
+        "pending at every other dispatch), never started (STOPPED), one-shot (EXITED), crashing (BACKOFF / FATAL), slow starters (STARTING) or "
+        "ignore the stop signal (STOPPING until SIGKILL), plus scripted exits; sessions: update (all / named groups), reread then update, stop + "
+        "remove by hand then update, two file versions in a row, an unparsable version in between; the update starts at a random pass and every "
+        "request is issued 0-3 passes after the previous answer.  Small-scope exhaustive part: seven structured worlds x every latency in 0..3 before "
+        "stopProcessGroup, removeProcessGroup (and addProcessGroup) x every phase of the batch job, so that each request is dispatched in every "
+        "state of the group's members, in particular the removal in the pass right after a member exited with its restart pending")
 
 VALUE_POOL = {
     'command': ['/bin/other', '/bin/cat --new'], 'priority': ['7', '998'], 'autostart': ['false', 'true'], 'autorestart': ['true', 'false', 'unexpected'],
@@ -997,6 +1021,8 @@ _LAST = {}
 def run(ctx):
     rng = ctx.rng
     st = {'cases': [], 'impls': [], 'hcases': [], 'himpls': [], 'origin': {}}
+    # (d) update / reread / remove against a daemon WITH children: the unmodified main loop over the simulated kernel
+    DAEMON.run_population(ctx)
     for label, old, new in CORPUS:
         one_pair(ctx, st, {'sections': old}, label, new, 'c')
         one_pair(ctx, st, {'sections': new}, label + '~rev', old, 'c')
@@ -1033,6 +1059,9 @@ def search(ctx):
     st = {'cases': [], 'impls': [], 'hcases': [], 'himpls': [], 'origin': {}}
     origin = _LAST.get('origin', {})
     seen = set()
+    DAEMON.run_population(ctx)
+    if _done(ctx):
+        return
     for b in ctx.broken:
         if b.get('kind') != 'correspondence' or not isinstance(b.get('input'), dict):
             continue
@@ -1071,6 +1100,9 @@ def search(ctx):
 
 def replay(ctx, data):
     inp = data['input']
+    if inp.get('daemon'):
+        DAEMON.replay(ctx, inp)
+        return
     st = {'cases': [], 'impls': [], 'hcases': [], 'himpls': []}
     tup = lambda secs: [(s, [tuple(o) for o in opts]) for s, opts in secs]
     if inp.get('history'):
@@ -1085,13 +1117,20 @@ def replay(ctx, data):
 TECHNIQUE = ("Lean 4 theorems over a model of config equality (compared attribute lists, comparison operands, statement shapes and class facts of the "
              "four group-level __eq__ methods and of ProcessConfig.__eq__ regenerated from options.py / datatypes.py), diff_to_active, "
              "reloadConfig, add/remove preconditions and do_update's call sequence; differential correspondence of file pairs against the real "
-             "ServerOptions + Supervisor.diff_to_active + reloadConfig + DefaultControllerPlugin.do_update")
+             "ServerOptions + Supervisor.diff_to_active + reloadConfig + DefaultControllerPlugin.do_update; the guard in front of group.transition() in "
+             "runforever and the attributes ProcessGroupBase.__eq__ compares are regenerated from supervisord.py / process.py and a one-pass model of "
+             "the group table proves that a group removed by a request of the pass is not transitioned; schedule exploration of supervisorctl "
+             "update / reread / remove against the unmodified main loop over a simulated kernel with children")
 LEVEL_TEXT = ("equality is characterised field by field for every pair of process configurations (eq_characterised, eq_refl) and of group configurations of "
               "each kind (group_/pool_/fcgi_/socket_eq_characterised; ne_characterised / changed_exact: a group is listed as changed exactly when its kind, "
               "priority, a process, buffer size, event subscriptions, result handler or a socket option differs), the shape of the coded comparisons is "
               "checked (eq_shape_understood, eq_compares_paired), the three lists of the diff are "
               "characterised and disjoint for all group lists, reread provably leaves the group table alone and CANT_REREAD the whole state, "
               "update's call sequence, its restriction to named groups and the convergence of the whole update (active = file, unreported groups "
-              "untouched incl. pids, changed/added groups fresh, removed groups gone) are proved for all states and files under 'stops complete'")
+              "untouched incl. pids, changed/added groups fresh, removed groups gone) are proved for all states and files under 'stops complete'; for every "
+              "group list taken at the top of a main-loop pass and every table the requests of that pass leave, a group object that is no longer in the "
+              "table is not transitioned, so nothing is forked for it (removed_group_not_transitioned, nothing_forked_for_removed_group, with the decided "
+              "counterexample equality_guard_transitions_removed_group for a guard decided by ProcessGroupBase.__eq__), and active groups still are "
+              "(active_group_still_transitioned)")
 LEVEL_NOTE = "stops are assumed to complete (stopProcessGroup of the model); the daemon side of add/remove is applied by precondition in the harness proxy"
 DESIGN_REF = "DESIGN.md section 6, C15"
